@@ -31,7 +31,7 @@ type full struct {
 	clear                             func()
 	setCapacity                       func(c int64)
 	keys                              func() []string
-	items                             func() []string // "key:id"
+	items                             func() []string               // "key:id"
 	rawAgain                          func() (keys, items []string) // re-reads the slices the last keys()/items() calls returned
 	stats                             func() (l, s, c, e int64)
 	length, size, capacity, evictions func() int64
@@ -256,11 +256,11 @@ func (m *mlru) items() []string {
 }
 
 type st struct {
-	c       *full
-	m       *mlru
-	next    int
-	removed []string // ids of every list SetAndGetRemoved returned, as they read at return time
-	prevKeys, prevItems []string // what Keys()/Items() returned after the previous step …
+	c                   *full
+	m                   *mlru
+	next                int
+	removed             []string        // ids of every list SetAndGetRemoved returned, as they read at return time
+	prevKeys, prevItems []string        // what Keys()/Items() returned after the previous step …
 	rawKeys             func() []string // … and a re-reader of those very slices
 }
 
@@ -530,9 +530,67 @@ func wideOps(sizes []int) []seq.Op[*wst] {
 	return o
 }
 
+// ---- observers as operations ----
+//
+// In the specs above Keys/Items/Stats are read after EVERY step.  An implementation that remembers
+// something from one observer call to the next (a cached view, a lazily rebuilt index) is then never
+// given two mutations between two observations.  Here the observers are ordinary letters of the
+// alphabet, four keys, nothing is read behind the explorer's back; the state key holds the ideal order
+// plus what the last Keys / Items call returned (all an implementation could have remembered).
+type ost struct {
+	keysFn, itemsFn func() string
+	set             func(k string, v *val)
+	get             func(k string) (*val, bool)
+	del             func(k string) bool
+	m               *mlru
+	lastKeys        string
+	lastItems       string
+	next            int
+}
+
+func obsOps() []seq.Op[*ost] {
+	var o []seq.Op[*ost]
+	for _, k := range []string{"a", "b", "c", "d"} {
+		k := k
+		o = append(o, seq.Op[*ost]{Name: "Set(" + k + ")", Step: func(s *ost) (string, string) {
+			v := &val{7, 1}
+			s.set(k, v)
+			s.m.set(k, v)
+			return "", ""
+		}})
+		o = append(o, seq.Op[*ost]{Name: "Get(" + k + ")", Step: func(s *ost) (string, string) {
+			v, ok := s.get(k)
+			want := mget(s.m, k, true)
+			return cmp("Get("+k+")", vstr(v, ok), want)
+		}})
+		o = append(o, seq.Op[*ost]{Name: "Delete(" + k + ")", Step: func(s *ost) (string, string) {
+			got := s.del(k)
+			i := s.m.find(k)
+			if i >= 0 {
+				s.m.size -= s.m.ents[i].w
+				s.m.ents = append(s.m.ents[:i:i], s.m.ents[i+1:]...)
+			}
+			return cmp("Delete("+k+")", fmt.Sprint(got), fmt.Sprint(i >= 0))
+		}})
+	}
+	o = append(o, seq.Op[*ost]{Name: "Keys()", Step: func(s *ost) (string, string) {
+		s.lastKeys = s.keysFn()
+		return cmp("Keys()", s.lastKeys, fmt.Sprint(s.m.keys()))
+	}})
+	o = append(o, seq.Op[*ost]{Name: "Items()", Step: func(s *ost) (string, string) {
+		s.lastItems = s.itemsFn()
+		return cmp("Items()", s.lastItems, fmt.Sprint(s.m.items()))
+	}})
+	return o
+}
+
+func obsKey(s *ost) string {
+	return fmt.Sprint(s.m.keys()) + "|" + s.lastKeys + "|" + s.lastItems
+}
+
 func main() {
 	r := ev.Start("C04")
-	r.Rule("breadth-first over all operation sequences (Set/SetIfAbsent/SetAndGetRemoved x keys a,b,c x sizes 0,1,2,5; Get/Peek/Exist/Delete; Clear; SetCapacity 0,1,3,4) on the real cache.LRUCache and tiny.LRUCache until no new state appears, states = (recency order, entry weights, capacity) which is the complete observable state; after every step the call's result, Keys, Items (value identity), Stats/Length/Size/Capacity/Evictions and Size<=Capacity are compared with a slice-based ideal LRU; wide variants (1,2,3 shards, modulo and xxhash) against one ideal LRU per shard with every key probed by Peek/Exist after every step; distinct = (op, result) pairs")
+	r.Rule("breadth-first over all operation sequences (Set/SetIfAbsent/SetAndGetRemoved x keys a,b,c x sizes 0,1,2,5; Get/Peek/Exist/Delete; Clear; SetCapacity 0,1,3,4) on the real cache.LRUCache and tiny.LRUCache until no new state appears, states = (recency order, entry weights, capacity) which is the complete observable state; after every step the call's result, Keys, Items (value identity), Stats/Length/Size/Capacity/Evictions and Size<=Capacity are compared with a slice-based ideal LRU; a second spec per cache in which Keys/Items are ordinary operations over four keys and nothing is observed between the letters (state key = ideal order + what the last Keys/Items returned); wide variants (1,2,3 shards, modulo and xxhash) against one ideal LRU per shard with every key probed by Peek/Exist after every step; distinct = (op, result) pairs")
 	r.Assume("SetIfAbsent on a present key may or may not refresh recency (statement silent)", "an item larger than the capacity is evicted together with everything older (strict LRU order)")
 	var jobs []func()
 	sizes, caps := []int{0, 1, 2, 5}, []int64{0, 1, 3, 4}
@@ -547,6 +605,64 @@ func main() {
 	jobs = append(jobs, func() {
 		seq.Explore(r, &seq.Spec[*st]{Name: "tiny.LRUCache", Ops: fullOps([]int{1}, []int64{0, 1, 2, 3}), Key: key, After: after, Depth: r.Pick(12, 40),
 			New: func() *st { return &st{c: fromTiny(tiny.NewLRUCache(2)), m: &mlru{capacity: 2, unit: true}} }})
+	})
+	jobs = append(jobs, func() {
+		seq.Explore(r, &seq.Spec[*ost]{Name: "cache.LRUCache/observers-as-operations", Ops: obsOps(), Key: obsKey, Depth: r.Pick(9, 12), New: func() *ost {
+			c := cache.NewLRUCache(4)
+			return &ost{m: &mlru{capacity: 4},
+				keysFn: func() string {
+					var o []string
+					for _, k := range c.Keys() {
+						o = append(o, fmt.Sprint(k))
+					}
+					return fmt.Sprint(o)
+				},
+				itemsFn: func() string {
+					var o []string
+					for _, it := range c.Items() {
+						o = append(o, fmt.Sprintf("%v:%d", it.Key, it.Value.(*val).id))
+					}
+					return fmt.Sprint(o)
+				},
+				set: func(k string, v *val) { c.Set(k, v) },
+				get: func(k string) (*val, bool) {
+					v, ok := c.Get(k)
+					if v == nil {
+						return nil, ok
+					}
+					return v.(*val), ok
+				},
+				del: func(k string) bool { return c.Delete(k) }}
+		}})
+	})
+	jobs = append(jobs, func() {
+		seq.Explore(r, &seq.Spec[*ost]{Name: "tiny.LRUCache/observers-as-operations", Ops: obsOps(), Key: obsKey, Depth: r.Pick(9, 12), New: func() *ost {
+			c := tiny.NewLRUCache(4)
+			return &ost{m: &mlru{capacity: 4, unit: true},
+				keysFn: func() string {
+					var o []string
+					for _, k := range c.Keys() {
+						o = append(o, fmt.Sprint(k))
+					}
+					return fmt.Sprint(o)
+				},
+				itemsFn: func() string {
+					var o []string
+					for _, it := range c.Items() {
+						o = append(o, fmt.Sprintf("%v:%d", it.Key, it.Value.(*val).id))
+					}
+					return fmt.Sprint(o)
+				},
+				set: func(k string, v *val) { c.Set(k, v) },
+				get: func(k string) (*val, bool) {
+					v, ok := c.Get(k)
+					if v == nil {
+						return nil, ok
+					}
+					return v.(*val), ok
+				},
+				del: func(k string) bool { return c.Delete(k) }}
+		}})
 	})
 	for _, prime := range []uint64{1, 2, 3} {
 		for _, xh := range []bool{false, true} {
